@@ -380,6 +380,31 @@ func (x *h) corruptions(clen, fsize int, thorough bool) []corr {
 
 var caseNo int
 
+// applyReplay: a replay file written by bin/check names the seed and tier of the run that failed; the harness is
+// deterministic for a seed, so replaying = running again with them.
+func applyReplay(ctx *common.Ctx) {
+	if ctx.Replay == "" {
+		return
+	}
+	b, err := os.ReadFile(ctx.Replay)
+	if err != nil {
+		return
+	}
+	var r struct {
+		Seed int64  `json:"seed"`
+		Tier string `json:"tier"`
+	}
+	if json.Unmarshal(b, &r) != nil {
+		return
+	}
+	if r.Seed != 0 {
+		ctx.Seed, ctx.Rng, ctx.Res.Seed = r.Seed, common.NewRng(r.Seed), r.Seed
+	}
+	if r.Tier == "quick" || r.Tier == "thorough" {
+		ctx.Tier, ctx.Res.Tier = r.Tier, r.Tier
+	}
+}
+
 // corruptAndCheck runs the corruptions on the stored file of `id` (content d) and evaluates the oracle.
 func (x *h) corruptAndCheck(id imap.InternalMessageID, d []byte, kind string, aligned string, cs []corr) error {
 	res := x.ctx.Res
@@ -489,6 +514,7 @@ func (x *h) craftedPrefix(gcm cipher.AEAD, d []byte, kind string) error {
 }
 
 func runC09(ctx *common.Ctx) error {
+	applyReplay(ctx)
 	thorough := ctx.Tier == "thorough"
 	dir, err := os.MkdirTemp("", "verif-c09-*")
 	if err != nil {
@@ -596,7 +622,7 @@ func runC09(ctx *common.Ctx) error {
 		}
 		if k >= 3 {
 			cs = append(cs, corr{Kind: "splice", Blocks: append(append([]int{}, ident[:1]...), ident[2:]...), Where: "drop-middle"})
-			cs = append(cs, corr{Kind: "splice", Blocks: append(append([]int{0, 1, 1}, ident[2:]...)), Where: "dup-middle"})
+			cs = append(cs, corr{Kind: "splice", Blocks: append([]int{0, 1, 1}, ident[2:]...), Where: "dup-middle"})
 			sw := append([]int{}, ident...)
 			sw[1], sw[2] = sw[2], sw[1]
 			cs = append(cs, corr{Kind: "splice", Blocks: sw, Where: "swap-middle"})
